@@ -70,6 +70,27 @@ Theorem c14_abnormal_codes : forall m,
 Proof. exact exit_code_nonzero_guarded. Qed.
 Print Assumptions c14_abnormal_codes.
 
+(* WHAT `Raises` MEANS (audit 4, A6).  HYPOTHESIS of every statement about a worker that "raises" (mode
+   Raises, exit code 1) and about a step of run_mapping that "raises" (Fail p: caught by `except Exception`,
+   traceback logged, tag 13): the exception is an instance of a subclass of Exception (is_exception).  For the
+   exit code the hypothesis can be weakened to: not a SystemExit whose code is None or a multiple of 256 -
+   exactly those leave the worker with exit code 0 (a forked worker that raises SystemExit(0) is, to every
+   parent, a worker that returned).  Observed on real forked workers (harness tag 1407). *)
+Theorem c14_raises_means_exception : forall r,
+  (is_exception r = true -> raise_exit_code r = exit_code_of Raises) /\
+  (raise_exit_code r = 0%Z <-> r = RSystemExitNone \/ exists k, r = RSystemExitInt k /\ (k mod 256 = 0)%Z).
+Proof. exact raises_means_exception. Qed.
+Print Assumptions c14_raises_means_exception.
+(* the hypothesis is met by what the harness and real failures raise (RuntimeError: RException -> 1) and the
+   excluded input is exactly where a raising worker is not seen: SystemExit() and SystemExit(0) -> 0 *)
+Example c14_example_system_exit_excluded :
+  raise_exit_code RException = 1%Z /\ exit_code_of Raises = 1%Z /\
+  raise_exit_code RSystemExitNone = 0%Z /\ raise_exit_code (RSystemExitInt 0) = 0%Z /\
+  raise_exit_code (RSystemExitInt 3) = 3%Z /\ raise_exit_code (RSystemExitInt 256) = 0%Z /\
+  raise_exit_code RSystemExitOther = 1%Z /\ raise_exit_code RBaseException = 1%Z /\
+  is_exception RBaseException = false /\ is_exception RSystemExitNone = false /\ is_exception RException = true.
+Proof. exact system_exit_examples. Qed.
+
 (* os._exit(256) cannot be told from a normal exit by ANY parent: the kernel hands out the low 8
    bits of the status.  "Exiting non-zero" in the property means a non-zero exit STATUS *)
 Theorem c14_exit_256_refuted :
